@@ -35,6 +35,7 @@ Section FvalInd.
   Hypothesis Hn : P FNone.
   Hypothesis Hs : forall s, P (FStr s).
   Hypothesis Hb : forall b, P (FBool b).
+  Hypothesis Hi : forall z, P (FInt z).
   Hypothesis Hl : forall l, Forall P l -> P (FList l).
   Hypothesis He : forall cls vals, Forall P vals -> P (FExpr cls vals).
 
@@ -43,6 +44,7 @@ Section FvalInd.
     | FNone => Hn
     | FStr s => Hs s
     | FBool b => Hb b
+    | FInt z => Hi z
     | FList l => Hl l ((fix go (l : list fval) : Forall P l :=
                           match l with [] => Forall_nil _ | x :: r => Forall_cons x (fval_ind' x) (go r) end) l)
     | FExpr cls vals => He cls vals ((fix go (l : list fval) : Forall P l :=
@@ -89,10 +91,11 @@ Section ExprMem.
 
   Theorem M_fval : forall v, Pf v.
   Proof.
-    induction v as [| s | b | l IH | cls vals IH] using fval_ind'; intros Hok k Hk.
+    induction v as [| s | b | z | l IH | cls vals IH] using fval_ind'; intros Hok k Hk.
     - destruct k; [|discriminate]. eapply M_union; [left; reflexivity|apply M_null].
     - destruct k; [|discriminate]. eapply M_union; [right; left; reflexivity|apply M_str].
     - destruct k; [|discriminate]. eapply M_union; [right; right; left; reflexivity|]. exists 1. reflexivity.
+    - destruct k; [|discriminate]. eapply M_union; [right; right; right; right; left; reflexivity|]. apply M_int.
     - destruct k; [discriminate|]. simpl in Hk, Hok. cbn [sh_field enc_fval].
       apply M_arr. apply Forall_map. rewrite Forall_forall in IH |- *. intros x Hin.
       rewrite forallb_forall in Hk, Hok. apply (IH x Hin (Hok x Hin) FScalar). specialize (Hk x Hin). now destruct x.
